@@ -4,3 +4,5 @@ open Amoco.Dis.Props
 #print axioms accept_in_key_le
 #print axioms accept_in_key_be
 #print axioms index_hides_nothing
+#print axioms setup_checks
+#print axioms lookup_setup_eq_scan
